@@ -514,6 +514,7 @@ export class ProcGenWrapper {
         }
         if (!slotElement) {
           if (slot !== undefined) elem.slot = slot
+          else if (elem.slot !== '') elem.slot = '' // the slot binding became undefined
         }
         if (!dynSlot) {
           this.handleChildrenUpdate(children, elem, undefined, undefined)
